@@ -78,6 +78,9 @@ type Scenario struct {
 	Prop string
 	Name string
 	Race bool // meant for the race binary as well
+	// RaceFilter, when set, selects the race reports (by signature) that are
+	// violations of THIS property; the others belong to another property's check.
+	RaceFilter func(sig string) bool
 	Run  func(rc *RunCtx)
 	// EnumDraw names a draw of the generation stream (Tape.Name) that the worker
 	// enumerates exhaustively for a sample of runs: the run is repeated with the
